@@ -18,6 +18,8 @@ import (
 	"os"
 	"path/filepath"
 	"sort"
+	"strconv"
+	"strings"
 	"sync"
 	"time"
 
@@ -324,9 +326,15 @@ func (s *stubService) Handle(ctx context.Context, conn net.Conn) error {
 	buf := make([]byte, 4096)
 	var all []byte
 	zero := 0
+	first := stubFirstRead(conn.RemoteAddr())
 	for {
-		n, err := conn.Read(buf)
-		all = append(all, buf[:n]...)
+		b := buf
+		if first > 0 {
+			// the size of a service's first Read is part of the scenario (C08: a reader with a small buffer)
+			b, first = buf[:first], 0
+		}
+		n, err := conn.Read(b)
+		all = append(all, b[:n]...)
 		stubs.mu.Lock()
 		rec.Hex = hex.EncodeToString(all)
 		stubs.mu.Unlock()
@@ -344,6 +352,19 @@ func (s *stubService) Handle(ctx context.Context, conn net.Conn) error {
 	rec.Done = true
 	stubs.mu.Unlock()
 	return nil
+}
+
+// stubFirstRead: connections from 198.51.x.7 (the C08 driver) carry the buffer size of the service's
+// first Read in the low two bits of their remote port
+var stubReadSizes = []int{4096, 1, 3, 700}
+
+func stubFirstRead(a net.Addr) int {
+	host, port, err := net.SplitHostPort(a.String())
+	if err != nil || !strings.HasPrefix(host, "198.51.") || !strings.HasSuffix(host, ".7") {
+		return 0
+	}
+	p, _ := strconv.Atoi(port)
+	return stubReadSizes[p%4]
 }
 
 // stubDetService additionally has a payload detector: a prefix predicate.
